@@ -271,8 +271,8 @@ Definition s_linked_pages : str := [108; 105; 110; 107; 101; 100; 45; 112; 97; 1
 Definition depth_rule_present (a : args) : bool :=
   (negb (a_level a =? 0) && a_recursive a) || negb (a_page_requisites_level a =? 0).
 
-(* in_scope a start_hosts u r: the conjunction of Appendix B's bullets *)
-Definition in_scope (L : lib) (a : args) (start_hosts : list str) (u : urlinfo) (r : urlrec) : bool :=
+(* every bullet of Appendix B except the span-hosts one *)
+Definition in_scope_but_span (L : lib) (a : args) (u : urlinfo) (r : urlrec) : bool :=
   (if a_https_only a then https_only_spec u else scheme_spec default_schemes u)
   && recursive_spec (a_recursive a) (a_page_requisites a) r
   && follow_ftp_spec L (a_follow_ftp a) u r
@@ -285,7 +285,11 @@ Definition in_scope (L : lib) (a : args) (start_hosts : list str) (u : urlinfo) 
   && (if depth_rule_present a then level_spec (a_level a) (a_page_requisites_level a) r else true)
   && regex_spec L (a_accept_regex a) (a_reject_regex a) u
   && directory_spec L (a_include_directories a) (a_exclude_directories a) u
-  && filename_spec L (a_accept a) (a_reject a) u
+  && filename_spec L (a_accept a) (a_reject a) u.
+
+(* in_scope a start_hosts u r: the conjunction of Appendix B's bullets *)
+Definition in_scope (L : lib) (a : args) (start_hosts : list str) (u : urlinfo) (r : urlrec) : bool :=
+  in_scope_but_span L a u r
   && span_hosts_spec L start_hosts (a_span_hosts a)
        (existsb (str_eqb s_page_requisites) (a_span_hosts_allow a))
        (existsb (str_eqb s_linked_pages) (a_span_hosts_allow a)) u r.
